@@ -576,6 +576,11 @@ impl<'a> Explorer<'a> {
                 if or.contract {
                     self.vio(l, "C06", "read-splits-a-character", format!("read {} falls inside a character / surrogate pair of the source", o.read), id, &call);
                 }
+                if or.decode_back {
+                    // the halves of a split pair are encoded as two U+FFFD: the output cannot decode
+                    // back to the input
+                    self.vio(l, "C12", "read-splits-a-character", format!("read {} falls inside a surrogate pair of the source, so the output cannot decode back to the input (out so far: {})", o.read, hex(&o.out)), id, &call);
+                }
                 return;
             }
         }
